@@ -15,7 +15,8 @@ LEVEL = "exploration"
 RULE = (
     "Part euler_and_rk3_compiled: Hypothesis draws a kernel in {advection Euler 2-D, 3-D scalar, 3-D vector; diffusion "
     "Euler 2-D, 3-D scalar, 3-D vector; vortex-stretching Euler; vortex-stretching SSP-RK3}, a grid shape (non-cubic), "
-    "precision, thread count, field/velocity contents (all kinds) and a step size over 6 decades. Oracle (differential "
+    "precision, thread count, field/velocity contents (all kinds), a memory layout of the arrays (contiguous, z-slab of a ghost-padded "
+    "array, sub-block, Fortran order) and a step size over 6 decades. Oracle (differential "
     "against the library's OWN separately generated flux kernel): Euler kernels must return field + flux(field; step) "
     "(float64 sum, 16*eps*(|field|+|flux|)); SSP-RK3 must return w + A w + A^2 w/2 + A^3 w/6 with A^k w obtained by "
     "repeated calls of the public flux kernel with the FULL step (64*eps*S). Part rk3_exact: the repo's SSP-RK3 and "
@@ -83,9 +84,29 @@ def _strategy(tier, name):
             "velocity": draw(gen.vector_field_spec(3, kinds=fk, max_mag_exp=3)),
             "step": draw(gen.log_uniform(1e-4, 1e2)),
             "poison": draw(st.booleans()),
+            # memory layout of the field / velocity / work buffers handed to the time-step kernel
+            "layout": draw(st.sampled_from(["contig", "contig", "zslab", "subblock", "fortran"])),
         }
 
     return case()
+
+
+def _as_layout(a, layout, nsp):
+    """same values in a differently laid out array (the kernels take arbitrary strided views)."""
+    if layout == "contig":
+        return a.copy()
+    lead = a.ndim - nsp
+    if layout == "zslab":  # interior slab along the first spatial axis of a ghost-padded array
+        pad = [(0, 0)] * lead + [(2, 2)] + [(0, 0)] * (nsp - 1)
+        base = np.pad(a, pad, constant_values=77.0)
+        return base[(slice(None),) * lead + (slice(2, -2),)]
+    if layout == "subblock":
+        pad = [(0, 0)] * lead + [(1, 2)] * nsp
+        base = np.pad(a, pad, constant_values=77.0)
+        return base[(slice(None),) * lead + tuple(slice(1, 1 + n) for n in a.shape[lead:])]
+    if layout == "fortran":
+        return np.asfortranarray(a)
+    raise ValueError(layout)
 
 
 def _body(case, ctx):
@@ -112,7 +133,14 @@ def _body(case, ctx):
     step = real_t(step)
     f0 = f.copy()
     u0 = u.copy()
+    lay = case.get("layout", "contig")
+    f = _as_layout(f, lay, dim)
+    u = _as_layout(u, lay, dim)
     buf_fill = 1e30 if case["poison"] else 0.0
+
+    def buf(shape_, fill):
+        return _as_layout(np.full(shape_, fill, dtype=real_t), lay, dim)
+
 
     def flux_of(x, s):
         """library flux kernel applied to x (float arrays of real_t), returns real_t array."""
@@ -139,19 +167,18 @@ def _body(case, ctx):
 
     with ctx.repo_call(f"{name} time-step kernel"):
         if name == "adv2d" or name == "adv3d_scalar":
-            ks[0](field=f, advection_flux=np.full(shape, buf_fill, dtype=real_t), velocity=u, dt_by_dx=step)
+            ks[0](field=f, advection_flux=buf(shape, buf_fill), velocity=u, dt_by_dx=step)
         elif name == "adv3d_vector":
-            ks[0](vector_field=f, advection_flux=np.full(shape, buf_fill, dtype=real_t), velocity=u, dt_by_dx=step)
+            ks[0](vector_field=f, advection_flux=buf(shape, buf_fill), velocity=u, dt_by_dx=step)
         elif name in ("dif2d", "dif3d_scalar"):
-            ks[0](field=f, diffusion_flux=np.full(shape, buf_fill, dtype=real_t), nu_dt_by_dx2=step)
+            ks[0](field=f, diffusion_flux=buf(shape, buf_fill), nu_dt_by_dx2=step)
         elif name == "dif3d_vector":
-            ks[0](vector_field=f, diffusion_flux=np.full(shape, buf_fill, dtype=real_t), nu_dt_by_dx2=step)
+            ks[0](vector_field=f, diffusion_flux=buf(shape, buf_fill), nu_dt_by_dx2=step)
         else:
             if name == "stretch_rk3":
                 ks[2][...] = buf_fill
-            ks[0](vorticity_field=f, velocity_field=u, vorticity_stretching_flux_field=np.full((3, *shape), buf_fill, dtype=real_t),
-                  dt_by_2_dx=step)
-    if u.tobytes() != u0.tobytes():
+            ks[0](vorticity_field=f, velocity_field=u, vorticity_stretching_flux_field=buf((3, *shape), buf_fill), dt_by_2_dx=step)
+    if np.ascontiguousarray(u).tobytes() != u0.tobytes():
         raise Violation(f"{name}: velocity field modified by the time-step kernel")
     with ctx.repo_call(f"{name} flux kernel"):
         a1 = flux_of(f0, step)
@@ -175,7 +202,7 @@ def _body(case, ctx):
         raise Violation(f"{name}: time-step kernel result {float(f[i])!r} != scheme built from the library's own flux kernel "
                         f"{float(want[i])!r} at {tuple(int(q) for q in i)} (step {float(step):.4g}, shape {list(shape)}, {case['dtype']})")
     ctx.extra["max_err_over_tol"] = max(ctx.extra.get("max_err_over_tol", 0.0), float(np.max(err / tol)))
-    ctx.note(nontrivial=nontrivial and len(set(shape)) > 1, labels=[name, case["dtype"], "poisoned_buffers" if case["poison"] else "zero_buffers"])
+    ctx.note(nontrivial=nontrivial and len(set(shape)) > 1, labels=[name, case["dtype"], "poisoned_buffers" if case["poison"] else "zero_buffers", "layout_" + lay])
 
 
 # ------------------------------------------------------------------------------------------------
